@@ -1,0 +1,32 @@
+//! Observation-only hooks for the external verification harness.
+//!
+//! Compiled only with `--cfg linfa_verif`; nothing here changes behaviour. The hooks record, at
+//! each site whose result could depend on hash-map iteration order, the order in which the keys
+//! were actually iterated, so that the harness can tell which iteration orders its runs covered.
+
+use std::collections::BTreeSet;
+use std::fmt::Debug;
+use std::sync::Mutex;
+
+static LOG: Mutex<BTreeSet<(&'static str, Vec<String>)>> = Mutex::new(BTreeSet::new());
+
+/// Records the order in which `keys` were iterated at `site` (de-duplicated).
+pub fn note_order<'a, K: Debug + 'a>(site: &'static str, keys: impl Iterator<Item = &'a K>) {
+    let order: Vec<String> = keys.map(|k| format!("{:?}", k)).collect();
+    if order.len() < 2 {
+        return;
+    }
+    if let Ok(mut log) = LOG.lock() {
+        if log.len() < 100_000 {
+            log.insert((site, order));
+        }
+    }
+}
+
+/// Returns and clears everything recorded so far.
+pub fn take_log() -> Vec<(&'static str, Vec<String>)> {
+    match LOG.lock() {
+        Ok(mut log) => std::mem::take(&mut *log).into_iter().collect(),
+        Err(_) => Vec::new(),
+    }
+}
